@@ -343,27 +343,29 @@ Proof.
     rewrite Hn, Hx'.
     pose proof (N.div_mod y q Hq0) as Hdm. pose proof (N.mod_lt y q Hq0) as Hml.
     set (n := y / q) in *. set (r := y mod q) in *.
-    assert (Hn128 : n < 128) by nia.
+    assert (Hn128 : n < 128) by (clear - Hdm Hml Hy Hhi Hq0; nia).
     assert (Haq : a = q * 128 * (a / Q)).
-    { pose proof (N.div_mod a Q ltac:(lia)) as Hda. rewrite Ha in Hda. lia. }
+    { pose proof (N.div_mod a Q ltac:(clear - Hhi Hq0; lia)) as Hda. rewrite Ha in Hda. clear - Hda Hhi. lia. }
     assert (Hlor : N.lor a (N.shiftl n (64 - 7 * N.of_nat (S i))) = a + n * q).
     { rewrite N.shiftl_mul_pow2. fold q.
       apply (lor_high_low a (n * q) (64 - 7 * N.of_nat i)); [exact Ha|].
-      fold Q. rewrite Hhi. nia. }
+      fold Q. rewrite Hhi, (N.mul_comm q 128). apply N.mul_lt_mono_pos_r; lia. }
     destruct (N.eqb_spec (r * (p * 128)) 0) as [Hz|Hnz].
-    + assert (Hr0 : r = 0) by nia. cbn [app]. rewrite dec_vf_step, Hi8.
+    + assert (Hr0 : r = 0).
+      { apply N.mul_eq_0 in Hz. destruct Hz as [Hz|Hz]; [exact Hz|]. clear - Hz Hp0. lia. }
+      cbn [app]. rewrite dec_vf_step, Hi8.
       replace (n <? 128) with true by (symmetry; apply N.ltb_lt; exact Hn128).
-      rewrite Hlor. f_equal. lia.
+      rewrite Hlor. f_equal. clear - Hdm Hr0. lia.
     + cbn [app]. rewrite dec_vf_step, Hi8.
       replace (N.lor n 128 <? 128) with false by (symmetry; apply N.ltb_ge, lor128_ge).
-      rewrite lor128 by lia. rewrite land127.
-      replace ((n mod 128 + 128) mod 128) with n by lia.
+      rewrite lor128 by (clear - Hn128; lia). rewrite land127.
+      replace ((n mod 128 + 128) mod 128) with n by (clear - Hn128; lia).
       rewrite Hlor.
-      replace (64 - 7 * N.of_nat (S i) - 7) with (57 - 7 * N.of_nat (S i)) by lia.
+      replace (64 - 7 * N.of_nat (S i) - 7) with (57 - 7 * N.of_nat (S i)) by (clear - Hi; lia).
       replace (r * (p * 128)) with (r * 2^(7 * N.of_nat (S i))) by (rewrite Hps; reflexivity).
       rewrite IH.
-      * f_equal. lia.
-      * lia.
+      * f_equal. clear - Hdm. lia.
+      * clear - Hi. lia.
       * exact Hml.
       * fold q. rewrite Haq.
         replace (q * 128 * (a / Q) + n * q) with ((128 * (a / Q) + n) * q) by lia.
@@ -397,3 +399,223 @@ Proof.
   rewrite rotr6_rotl6 by (unfold wrap64, W64; lia).
   unfold wrap64, W64, one_bits in *. lia.
 Qed.
+
+(* ------------------------------------------------------------------ *)
+(* g. strict prefixes of an encoding decode to Eof                     *)
+(* ------------------------------------------------------------------ *)
+Definition cont (b : byte) : Prop := 128 <= b.
+
+Lemma dec_uv_cont_eof : forall p fuel i x s,
+  Forall cont p -> (i + length p <= 8)%nat -> dec_uv_loop fuel i x s p = Eof.
+Proof.
+  induction p as [|n tl IH]; intros fuel i x s Hc Hlen.
+  - apply dec_uv_nil.
+  - rewrite dec_uv_step. inversion Hc as [|n' tl' Hn Htl]; subst. unfold cont in Hn.
+    cbn [length] in Hlen.
+    replace (n <? 128) with false by (symmetry; apply N.ltb_ge; exact Hn).
+    replace (Nat.eqb i 8) with false by (symmetry; apply Nat.eqb_neq; lia).
+    cbn [orb]. destruct fuel as [|f]; [reflexivity|].
+    apply IH; [exact Htl|lia].
+Qed.
+
+Lemma dec_vf_cont_eof : forall p fuel i x s,
+  Forall cont p -> (i + length p <= 8)%nat -> dec_vf_loop fuel i x s p = Eof.
+Proof.
+  induction p as [|n tl IH]; intros fuel i x s Hc Hlen.
+  - apply dec_vf_nil.
+  - rewrite dec_vf_step. inversion Hc as [|n' tl' Hn Htl]; subst. unfold cont in Hn.
+    cbn [length] in Hlen.
+    replace (n <? 128) with false by (symmetry; apply N.ltb_ge; exact Hn).
+    replace (Nat.eqb i 8) with false by (symmetry; apply Nat.eqb_neq; lia).
+    destruct fuel as [|f]; [reflexivity|].
+    apply IH; [exact Htl|lia].
+Qed.
+
+Lemma singleton_prefix {A} (b : A) (p s : list A) : [b] = p ++ s -> s <> [] -> p = [].
+Proof.
+  intros H Hs. destruct p as [|c p']; [reflexivity|exfalso].
+  cbn [app] in H. injection H as _ H. symmetry in H. apply app_eq_nil in H.
+  apply Hs, H.
+Qed.
+
+Lemma enc_uv_prefix_cont : forall f v p s,
+  enc_uv_loop f v = p ++ s -> s <> [] -> Forall cont p /\ (length p <= f)%nat.
+Proof.
+  induction f as [|f IH]; intros v p s H Hs.
+  - rewrite enc_uv_0 in H. apply singleton_prefix in H; [|exact Hs]. subst p.
+    split; [constructor|cbn; lia].
+  - rewrite enc_uv_S in H. destruct (v <? 128).
+    + apply singleton_prefix in H; [|exact Hs]. subst p. split; [constructor|cbn; lia].
+    + destruct p as [|c p']; [split; [constructor|cbn; lia]|].
+      cbn [app] in H. injection H as Hc H. apply IH in H; [|exact Hs].
+      destruct H as [HF HL]. split.
+      * constructor; [|exact HF]. subst c. apply lor128_ge.
+      * cbn [length]. lia.
+Qed.
+
+Lemma enc_vf_prefix_cont : forall f x p s,
+  enc_vf_loop f x = p ++ s -> s <> [] -> Forall cont p /\ (length p <= f)%nat.
+Proof.
+  induction f as [|f IH]; intros x p s H Hs.
+  - rewrite enc_vf_0 in H. apply singleton_prefix in H; [|exact Hs]. subst p.
+    split; [constructor|cbn; lia].
+  - rewrite enc_vf_S in H. destruct (wrap64 (N.shiftl x 7) =? 0).
+    + apply singleton_prefix in H; [|exact Hs]. subst p. split; [constructor|cbn; lia].
+    + destruct p as [|c p']; [split; [constructor|cbn; lia]|].
+      cbn [app] in H. injection H as Hc H. apply IH in H; [|exact Hs].
+      destruct H as [HF HL]. split.
+      * constructor; [|exact HF]. subst c. apply lor128_ge.
+      * cbn [length]. lia.
+Qed.
+
+Theorem uvarint_prefix_eof v p s : enc_uv v = p ++ s -> s <> [] -> dec_uv p = Eof.
+Proof.
+  intros H Hs. apply enc_uv_prefix_cont in H; [|exact Hs]. destruct H as [HF HL].
+  apply dec_uv_cont_eof; [exact HF|lia].
+Qed.
+
+Theorem varint_prefix_eof v p s : enc_sv v = p ++ s -> s <> [] -> dec_sv p = Eof.
+Proof.
+  intros H Hs. unfold dec_sv. unfold enc_sv in H.
+  rewrite (uvarint_prefix_eof _ _ _ H Hs). reflexivity.
+Qed.
+
+Theorem varint32_prefix_eof v p s : enc_sv v = p ++ s -> s <> [] -> dec_sv32 p = Eof.
+Proof.
+  intros H Hs. unfold dec_sv32. rewrite (varint_prefix_eof _ _ _ H Hs). reflexivity.
+Qed.
+
+Theorem varfloat_raw_prefix_eof x p s : enc_vf_raw x = p ++ s -> s <> [] -> dec_vf_raw p = Eof.
+Proof.
+  intros H Hs. apply enc_vf_prefix_cont in H; [|exact Hs]. destruct H as [HF HL].
+  apply dec_vf_cont_eof; [exact HF|lia].
+Qed.
+
+Theorem f64le_prefix_eof bits p s : enc_f64le_bits bits = p ++ s -> s <> [] -> dec_f64le_bits p = Eof.
+Proof.
+  intros H Hs. pose proof (f64le_length bits) as HL. rewrite H, app_length in HL.
+  destruct s as [|c s']; [exfalso; apply Hs; reflexivity|]. cbn [length] in HL.
+  unfold dec_f64le_bits.
+  replace (length p <? 8)%nat with true by (symmetry; apply Nat.ltb_lt; lia). reflexivity.
+Qed.
+
+(* ------------------------------------------------------------------ *)
+(* h. the decoders look at no more than 9 bytes                        *)
+(* ------------------------------------------------------------------ *)
+Definition extend {A} (r : res A) (more : list byte) : res A :=
+  match r with Ok v rest => Ok v (rest ++ more) | Eof => Eof | Overflow32 => Overflow32 end.
+
+Lemma dec_uv_loop_firstn : forall b fuel i x s, (i <= 8)%nat ->
+  dec_uv_loop fuel i x s b =
+  extend (dec_uv_loop fuel i x s (firstn (9 - i) b)) (skipn (9 - i) b).
+Proof.
+  induction b as [|n tl IH]; intros fuel i x s Hi.
+  - rewrite firstn_nil, !dec_uv_nil. reflexivity.
+  - replace (9 - i)%nat with (S (8 - i)) by lia. cbn [firstn skipn]. rewrite !dec_uv_step.
+    destruct ((n <? 128) || Nat.eqb i 8) eqn:Hstop.
+    + cbn [extend]. rewrite firstn_skipn. reflexivity.
+    + destruct fuel as [|f]; [reflexivity|].
+      apply orb_false_iff in Hstop. destruct Hstop as [_ Hi8]. apply Nat.eqb_neq in Hi8.
+      replace (8 - i)%nat with (9 - S i)%nat by lia. apply IH. lia.
+Qed.
+
+Lemma dec_vf_loop_firstn : forall b fuel i x s, (i <= 8)%nat ->
+  dec_vf_loop fuel i x s b =
+  extend (dec_vf_loop fuel i x s (firstn (9 - i) b)) (skipn (9 - i) b).
+Proof.
+  induction b as [|n tl IH]; intros fuel i x s Hi.
+  - rewrite firstn_nil, !dec_vf_nil. reflexivity.
+  - replace (9 - i)%nat with (S (8 - i)) by lia. cbn [firstn skipn]. rewrite !dec_vf_step.
+    destruct (Nat.eqb i 8) eqn:Hi8.
+    + cbn [extend]. rewrite firstn_skipn. reflexivity.
+    + destruct (n <? 128).
+      * cbn [extend]. rewrite firstn_skipn. reflexivity.
+      * destruct fuel as [|f]; [reflexivity|].
+        apply Nat.eqb_neq in Hi8.
+        replace (8 - i)%nat with (9 - S i)%nat by lia. apply IH. lia.
+Qed.
+
+Theorem uvarint_reads_at_most_9 b :
+  dec_uv b = match dec_uv (firstn 9 b) with
+             | Ok v r => Ok v (r ++ skipn 9 b) | Eof => Eof | Overflow32 => Overflow32 end.
+Proof. unfold dec_uv. apply (dec_uv_loop_firstn b 9 0 0 0). lia. Qed.
+
+Theorem varfloat_raw_reads_at_most_9 b :
+  dec_vf_raw b = match dec_vf_raw (firstn 9 b) with
+                 | Ok v r => Ok v (r ++ skipn 9 b) | Eof => Eof | Overflow32 => Overflow32 end.
+Proof. unfold dec_vf_raw. apply (dec_vf_loop_firstn b 9 0 0 57). lia. Qed.
+
+Lemma dec_uv_loop_lt : forall b fuel i x s v r, dec_uv_loop fuel i x s b = Ok v r -> v < W64.
+Proof.
+  induction b as [|n tl IH]; intros fuel i x s v r H.
+  - rewrite dec_uv_nil in H. discriminate H.
+  - rewrite dec_uv_step in H. destruct ((n <? 128) || Nat.eqb i 8).
+    + injection H as Hv _. subst v. unfold wrap64. apply N.mod_lt. unfold W64. lia.
+    + destruct fuel as [|f]; [discriminate H|]. eapply IH. exact H.
+Qed.
+
+Theorem uvarint_decoded_lt b v r : dec_uv b = Ok v r -> v < W64.
+Proof. unfold dec_uv. apply dec_uv_loop_lt. Qed.
+
+Lemma shiftl7_lt n s : n < 128 -> s <= 57 -> N.shiftl n s < 2^64.
+Proof.
+  intros Hn Hs. rewrite N.shiftl_mul_pow2.
+  apply N.lt_le_trans with (128 * 2^s).
+  - apply N.mul_lt_mono_pos_r; [apply pow2_pos|exact Hn].
+  - change 128 with (2^7). rewrite <- N.pow_add_r. apply N.pow_le_mono_r; lia.
+Qed.
+
+Lemma dec_vf_loop_lt : forall b fuel i x s v r,
+  Forall (fun c => c < 256) b -> x < 2^64 -> s <= 57 ->
+  dec_vf_loop fuel i x s b = Ok v r -> v < 2^64.
+Proof.
+  induction b as [|n tl IH]; intros fuel i x s v r Hb Hx Hs H.
+  - rewrite dec_vf_nil in H. discriminate H.
+  - rewrite dec_vf_step in H. inversion Hb as [|n' tl' Hn Htl]; subst.
+    destruct (Nat.eqb i 8).
+    + injection H as Hv _. subst v. apply lor_lt_pow2; [exact Hx|].
+      apply N.lt_trans with 256; [exact Hn|reflexivity].
+    + destruct (N.ltb_spec n 128) as [Hlt|Hge].
+      * injection H as Hv _. subst v. apply lor_lt_pow2; [exact Hx|]. apply shiftl7_lt; assumption.
+      * destruct fuel as [|f]; [discriminate H|].
+        apply IH in H; [exact H|exact Htl| |lia].
+        apply lor_lt_pow2; [exact Hx|]. apply shiftl7_lt; [|exact Hs].
+        rewrite land127. apply N.mod_lt. lia.
+Qed.
+
+Theorem varfloat_raw_decoded_lt b v r :
+  Forall (fun c => c < 256) b -> dec_vf_raw b = Ok v r -> v < W64.
+Proof.
+  intros Hb H. unfold dec_vf_raw in H. rewrite W64_pow.
+  apply (dec_vf_loop_lt b 9 0 0 57 v r Hb); [apply pow2_pos|lia|exact H].
+Qed.
+
+(* ------------------------------------------------------------------ *)
+(* i. flags                                                            *)
+(* ------------------------------------------------------------------ *)
+Lemma in_range_list n b : b < N.of_nat n -> In b (map N.of_nat (seq 0 n)).
+Proof.
+  intros H. apply in_map_iff. exists (N.to_nat b). split; [lia|]. apply in_seq. lia.
+Qed.
+
+Definition flag_ok (t s : N) : bool :=
+  (flag_type (mk_flag t s) =? t) && (flag_sub (mk_flag t s) =? s * 4) && (mk_flag t s <? 256).
+
+Lemma flag_sweep :
+  forallb (fun t => forallb (fun s => flag_ok t s) (map N.of_nat (seq 0 64))) (map N.of_nat (seq 0 4)) = true.
+Proof. vm_compute. reflexivity. Qed.
+
+Theorem flag_roundtrip t s : t < 4 -> s < 64 ->
+  flag_type (mk_flag t s) = t /\ flag_sub (mk_flag t s) = s * 4 /\ mk_flag t s < 256.
+Proof.
+  intros Ht Hs. pose proof flag_sweep as H. rewrite forallb_forall in H.
+  specialize (H t (in_range_list 4 t Ht)). rewrite forallb_forall in H.
+  specialize (H s (in_range_list 64 s Hs)). unfold flag_ok in H.
+  apply andb_true_iff in H. destruct H as [H H3]. apply andb_true_iff in H. destruct H as [H1 H2].
+  apply N.eqb_eq in H1. apply N.eqb_eq in H2. apply N.ltb_lt in H3. auto.
+Qed.
+
+Theorem dec_flag_cons f rest : dec_flag (f :: rest) = Ok f rest.
+Proof. reflexivity. Qed.
+Theorem dec_flag_nil : dec_flag [] = Eof.
+Proof. reflexivity. Qed.
